@@ -147,3 +147,42 @@ Definition check_tab (r : tabrow) : bool :=
 (* tabulation failures are reported with index + 1000000 *)
 Definition tab_mismatches (rs : list tabrow) : list N :=
   map (fun i => (1000000 + i)%N) (failing check_tab rs).
+
+(* ---- shrunk oracle findings replayed in the model ------------------------------------------
+   A disagreement that is excused by an open known finding must be REPRODUCED by the faithful
+   model ([check]: same RBAC, same two verdicts at the disagreeing point), and, when it is
+   attributed to the superset-source defect, the model of the REPAIRED translator must give the
+   precedence verdict at that point ([check_repaired_point]) - i.e. the disagreement is exactly
+   what the proposed repair removes. *)
+Definition check_repaired_point (c : case) : bool :=
+  forallb (fun s =>
+             Bool.eqb (eval_rbac (re_of (sm_re s))
+                                 (translate_repaired (k_cfg c) (k_ixns c) (k_dflt c) (k_http c))
+                                 (sm_conn s) (sm_req s))
+                      (sm_want s))
+          (k_samples c).
+
+Definition check_finding (shadow : bool) (c : case) : bool :=
+  check c
+  && forallb (fun s => negb (Bool.eqb (sm_rbac s) (sm_want s))) (k_samples c)   (* it IS a disagreement *)
+  && (if shadow then check_repaired_point c else true).
+
+Record fcase := FCase { f_shadow : bool; f_case : case }.
+Definition finding_mismatches (fs : list fcase) : list N :=
+  map (fun i => (2000000 + i)%N) (failing (fun f => check_finding (f_shadow f) (f_case f)) fs).
+
+(* ---- a tree that carries the proposed repair (VERIF_C14_MODEL=repaired) is compared with translate_repaired *)
+Definition check_on_repaired_tree (c : case) : bool :=
+  match k_expect c with
+  | Some x =>
+      xrbac_eqb (flat_rbac (translate_repaired (k_cfg c) (k_ixns c) (k_dflt c) (k_http c))) x
+      && forallb (fun s =>
+                    let re := re_of (sm_re s) in
+                    Bool.eqb (eval_rbac re (translate_repaired (k_cfg c) (k_ixns c) (k_dflt c) (k_http c))
+                                        (sm_conn s) (sm_req s)) (sm_rbac s)
+                    && Bool.eqb (intention_allows re (k_cfg c) (k_ixns c) (k_dflt c) (k_http c) (sm_conn s) (sm_req s))
+                                (sm_want s))
+                 (k_samples c)
+  | None => false
+  end.
+Definition mismatches_repaired_tree (cs : list case) : list N := failing check_on_repaired_tree cs.
